@@ -3,9 +3,13 @@ mod digest;
 mod exec;
 mod gen;
 mod gen2;
+mod gen3;
 mod model;
 mod oracle;
 mod oracle2;
+mod oracle3;
+mod oracle4;
+mod oracle5;
 mod props;
 mod rng;
 mod worker;
